@@ -762,7 +762,9 @@ class Call(Node):
     def src(self, pr):
         args = [a.src(pr) for a in self.args]
         if isinstance(self.callee, Var) and args and pr.form(["call", "call", "method"]) == "method":
-            return f"{self.args[0].atom(pr)}.{pr.nm(self.callee.name)}(" + ", ".join(args[1:]) + ")"
+            recv = self.args[0].atom(pr)
+            if not (pr.nm(self.callee.name).startswith("_") and recv[-1:].isdigit()):     # `1._a(2)` lexes as the number `1._` followed by `a`
+                return f"{recv}.{pr.nm(self.callee.name)}(" + ", ".join(args[1:]) + ")"
         return f"{self.callee.atom(pr)}(" + ", ".join(args) + ")"
 
     def ev(self, env, m, tail=None):
